@@ -5,7 +5,11 @@ REAL `run_turn` (rig `harness/lib/turnrig.py`) with every cache of a configurati
 off; stage results must be equal except for the cache diagnostics.  Components:
 
   sweep   2-step histories: turn, change ONE input dimension of the read-set, turn — per cache configuration
-          (the "dimension sweep"; produces the finding keys `C05:<cache>:<dimension>`)
+          (the "dimension sweep"; produces the finding keys `C05:<cache>:<dimension>`); includes EVERY configuration
+          leaf the validator allows under t2.quality.*, t2.hybrid.*, t2.ranking.*, t1.*, perf.t1.* (derived at run
+          time from the ALLOWED_* sets of configs/validate.py) with the gate on and a corpus where it matters
+          (near-duplicate episodes for MMR/fusion, GEL edges for hybrid), read-modify-write graph edits, applies
+          through the real apply_changes, re-adds of existing episode ids
   hist    generated histories over {turn, set agent/now/text/kill switch/slice budgets/one config value, upsert
           node/edge (same and different counts), add episode, clock tick} on 1–3 states in one process, cache
           capacities {0,1,2,512}, TTLs {0,5,300,-1}; a divergence is shrunk and classified
@@ -56,8 +60,7 @@ ASSUMPTIONS = [
     "graphs are edited through the store API (upsert_nodes / upsert_edges / apply_deltas); in-place mutation of a Node/Edge object "
     "bypasses every version counter and is outside the property",
     "sha1 (store etag, quality digest) and json.dumps(sort_keys) (`stable_key`) are treated as injective on the values they are given",
-    "ctx.enc (a custom embedding adapter object) and t2.quality/hybrid settings are constant within a history (hybrid/GEL and the "
-    "quality settings outside the digest are an unkeyed part of the T2 read-set: `rest`, negation witness C05_t2_key_insufficient_rest)",
+    "ctx.enc (a custom embedding adapter object) is constant within a history; the contents of an aliasing map file are not varied",
     "one active graph (`g:surface`); the parallel T1/T2 paths are C09's subject",
 ]
 TRUSTED = [
@@ -84,7 +87,7 @@ CLAIM = {
     "design_ref": "DESIGN.md §4 C05, §5 rows 6-8",
 }
 
-BUDGET = {"quick": 140, "thorough": 2600, "search": 2500}
+BUDGET = {"quick": 110, "thorough": 2600, "search": 2500}
 MAX_FAILURES = 30      # a verdict exists: stop generating (bounds the run time under a grossly broken cache)
 RUNOPS_BUDGET = {"quick": 200, "thorough": 6000, "search": 6000}
 T2_PAYLOAD_BASE = {"q", "exact_recent_days", "sim_threshold", "clusters_top_m", "owner_scope", "owner", "k_retrieval", "now",
